@@ -10,9 +10,13 @@
 package main
 
 import (
+	"bytes"
+	"encoding/binary"
 	"fmt"
 	"strconv"
 
+	"wa-lang.org/wa/internal/native/abi"
+	"wa-lang.org/wa/internal/native/asm"
 	"wa-lang.org/wa/internal/native/pcrel"
 	"wa-lang.org/wa/internal/zz_verif/vh"
 )
@@ -96,6 +100,12 @@ func main() {
 				return "bad-op"
 			}
 			return fmt.Sprintf("%d", pcrel.GetTargetAddressLa64(pc, hi, lo))
+		case (f[0] == "asmla" || f[0] == "asmrv32" || f[0] == "asmrv64") && len(f) == 5:
+			base, _ := strconv.ParseInt(f[1], 10, 64)
+			nops, _ := strconv.ParseInt(f[2], 10, 64)
+			pad, _ := strconv.ParseInt(f[3], 10, 64)
+			textFirst := f[4] == "t"
+			return asmE2E(f[0], base, int(nops), pad, textFirst)
 		case f[0] == "sweep" && len(f) == 3:
 			s, _ := strconv.ParseUint(f[1], 10, 64)
 			n, _ := strconv.ParseUint(f[2], 10, 64)
@@ -201,4 +211,97 @@ func sweepLa(start, count uint64) string {
 		}
 	}
 	return "ok"
+}
+
+// ---- end to end through the assembler (the users of package pcrel) ----
+
+var marker = []byte{0x88, 0x77, 0x66, 0x55, 0x44, 0x33, 0x22, 0x11}
+
+// asmE2E assembles a tiny program that loads the address of a data symbol with the hi/lo pair,
+// `nops` instructions after the start of the function and `pad` bytes into the data section,
+// then reads the two instruction words back from the linked text, extracts the immediate fields
+// and applies the CPU semantics.  Output: "ok pc=<pc> sym=<addr> hi=<field> lo=<field> cpu=<addr>".
+func asmE2E(kind string, base int64, nops int, pad int64, textFirst bool) string {
+	var sb bytes.Buffer
+	data := func() {
+		sb.WriteString(".section .data\n.align 3\n")
+		if pad > 0 {
+			// (.skip makes the assembler panic; an .ascii string of the wanted length does the job)
+			fmt.Fprintf(&sb, ".verif.pad: .ascii \"%s\"\n", bytes.Repeat([]byte{'x'}, int(pad)))
+		}
+		sb.WriteString(".verif.sym: .quad 0x1122334455667788\n")
+	}
+	text := func() {
+		sb.WriteString(".section .text\n.globl _start\n_start:\n")
+		for i := 0; i < nops; i++ {
+			if kind == "asmla" {
+				sb.WriteString("    addi.d $zero, $zero, 0\n")
+			} else {
+				sb.WriteString("    addi zero, zero, 0\n")
+			}
+		}
+		if kind == "asmla" {
+			sb.WriteString("    pcalau12i $t0, %pc_hi20(.verif.sym)\n    addi.d $t0, $t0, %pc_lo12(.verif.sym)\n    jirl $zero, $ra, 0\n")
+		} else {
+			sb.WriteString(".verif.L:\n    auipc t0, %pcrel_hi(.verif.sym)\n    addi t0, t0, %pcrel_lo(.verif.L)\n    jalr zero, 0(ra)\n")
+		}
+	}
+	if textFirst {
+		text()
+		data()
+	} else {
+		data()
+		text()
+	}
+	opt := &abi.LinkOptions{DRAMBase: base, DRAMSize: 64 << 20}
+	switch kind {
+	case "asmla":
+		opt.CPU = abi.LOONG64
+	case "asmrv32":
+		opt.CPU = abi.RISCV32
+	default:
+		opt.CPU = abi.RISCV64
+	}
+	prog, err := asm.AssembleFile("verif_c18.wa.s", sb.Bytes(), opt)
+	if err != nil {
+		return "asm-error " + err.Error()
+	}
+	idx := bytes.Index(prog.DataData, marker)
+	if idx < 0 {
+		return "no-marker"
+	}
+	sym := prog.DataAddr + int64(idx)
+	// the text starts with room for the ELF headers (zero bytes here); the function follows
+	off := -1
+	for i := 0; i+8 <= len(prog.TextData); i += 4 {
+		if w := binary.LittleEndian.Uint32(prog.TextData[i:]); w != 0 {
+			off = i + 4*nops
+			break
+		}
+	}
+	if off < 0 || off+8 > len(prog.TextData) {
+		return "short-text"
+	}
+	w0 := binary.LittleEndian.Uint32(prog.TextData[off:])
+	w1 := binary.LittleEndian.Uint32(prog.TextData[off+4:])
+	pc := prog.TextAddr + int64(off)
+	switch kind {
+	case "asmla":
+		if w0>>25 != 0b0001101 || w1>>22 != 0b0000001011 {
+			return fmt.Sprintf("unexpected-words %08x %08x", w0, w1)
+		}
+		hi := int32(w0 >> 5 & 0xFFFFF)
+		lo := int32(w1 >> 10 & 0xFFF)
+		return fmt.Sprintf("ok pc=%d sym=%d hi=%d lo=%d cpu=%d", pc, sym, hi, lo, cpuLa64(pc, hi, lo))
+	default:
+		if w0&0x7f != 0b0010111 || w1&0x707f != 0b0010011 {
+			return fmt.Sprintf("unexpected-words %08x %08x", w0, w1)
+		}
+		hi := int32(w0 >> 12)
+		lo := int32(w1 >> 20)
+		if kind == "asmrv32" {
+			return fmt.Sprintf("ok pc=%d sym=%d hi=%d lo=%d cpu=%d", pc, sym, hi, lo, cpuRv32(uint32(pc), hi, lo))
+		}
+		return fmt.Sprintf("ok pc=%d sym=%d hi=%d lo=%d cpu=%d", pc, sym, hi, lo, cpuRv64(pc, hi, lo))
+	}
 }
